@@ -30,7 +30,7 @@ ASSUMPTIONS = [
     "for iter_bytes only the concatenation is compared (chunk boundaries are the input there, not an output)",
     "a block consisting only of comment lines may or may not produce an (empty) event: the statement does not say; the reference accepts both",
 ]
-BOUND = {"quick": "<=2 records over the whole alphabet (18 SSE / 13 NDJSON records), 3 records over the core (10 / 6); all chunkings for n<=13 bytes; <=2 split points otherwise; 1 empty-chunk deviation",
+BOUND = {"quick": "<=2 records over the whole alphabet (18 SSE / 15 NDJSON records), 3 records over the core (10 / 6); all chunkings for n<=13 bytes; <=2 split points otherwise; 1 empty-chunk deviation",
          "thorough": "<=3 records; all chunkings for n<=17 bytes; <=3 split points otherwise; 1 empty-chunk deviation"}
 
 SSE_RECORDS = {
@@ -67,6 +67,8 @@ ND_RECORDS = {
     "k": b"null\n",
     "l": b'""\n',
     "m": b"false\n",
+    "n": b" \n",           # keep-alive / padding lines that hold only white space carry no record
+    "o": b"\t\r\n",
     "g": b'{"c":{"d":null}}',  # unterminated last record
 }
 ND_CORE = "abcefg"
